@@ -7,15 +7,8 @@ Require Import Base.Py Base.ZList Model.Splice Model.Fam_mp4 Proofs.Splice_lemma
   Proofs.Fam_mp4_lists Proofs.Fam_mp4_surgery Proofs.Fam_mp4_shift Proofs.Fam_mp4_existing.
 Open Scope Z_scope.
 
-(* the rendered atoms __save_new inserts *)
-Definition new_meta_bytes (cb : Z -> Z -> Z) (content_size : Z) (ilst_data : list Z) : list Z :=
-  let meta_data := zeros 4 ++ mp4_hdlr ++ ilst_data in
-  mp4_render N_meta (meta_data ++ mp4_padding_atom cb (- zlen meta_data) content_size).
-Definition new_insert (cb : Z -> Z -> Z) (f : list Z) (last : mp4_atom) (ilst_data : list Z) : list Z :=
-  let m := new_meta_bytes cb (zlen f - (ma_off last + ma_hdr last)) ilst_data in
-  if list_eqb (ma_name last) N_udta then m else mp4_render N_udta m.
-Definition insert_path (atoms : list mp4_atom) : option (list mp4_atom) :=
-  match mp4_path atoms [N_moov; N_udta] with Some p => Some p | None => mp4_path atoms [N_moov] end.
+Notation new_insert := mp4_new_insert.
+Notation insert_path := mp4_insert_path.
 
 Lemma save_new_unfold f atoms ilst_data cb f' :
   mp4_save_new f atoms ilst_data cb = Ok f' ->
@@ -26,16 +19,12 @@ Lemma save_new_unfold f atoms ilst_data cb f' :
     exists f2, mp4_update_parents (zlen data) (splice f off 0 data) (map ma_off path) = Ok f2 /\
                mp4_update_offsets atoms (zlen data) off f2 = Ok f'.
 Proof.
-  unfold mp4_save_new. fold (insert_path atoms). destruct (insert_path atoms) as [path|]; [|discriminate].
-  destruct (rev path) as [|last rest] eqn:Er; [discriminate|].
-  set (off := ma_off last + ma_hdr last).
-  fold (new_meta_bytes cb (zlen f - off) ilst_data).
-  change (if list_eqb (ma_name last) N_udta then new_meta_bytes cb (zlen f - off) ilst_data
-          else mp4_render N_udta (new_meta_bytes cb (zlen f - off) ilst_data)) with (new_insert cb f last ilst_data).
-  set (data := new_insert cb f last ilst_data).
-  destruct (off >? zlen f) eqn:E; [discriminate|].
-  destruct (mp4_update_parents (zlen data) (splice f off 0 data) (map ma_off path)) as [f2|] eqn:E2; [|discriminate].
-  intros H. exists path, last, rest. split; [reflexivity|]. split; [reflexivity|]. cbv zeta. split; [lia|].
+  unfold mp4_save_new. destruct (mp4_insert_path atoms) as [path|]; [|discriminate].
+  destruct (rev path) as [|last rest] eqn:Er; [discriminate|]. cbv zeta.
+  destruct (ma_off last + ma_hdr last >? zlen f) eqn:E; [discriminate|].
+  destruct (mp4_update_parents (zlen (mp4_new_insert cb f last ilst_data))
+              (splice f (ma_off last + ma_hdr last) 0 (mp4_new_insert cb f last ilst_data)) (map ma_off path)) as [f2|] eqn:E2; [|discriminate].
+  intros H. exists path, last, rest. split; [reflexivity|]. split; [exact Er|]. split; [lia|].
   exists f2. auto.
 Qed.
 
@@ -45,7 +34,7 @@ Lemma insert_path_cases atoms path : insert_path atoms = Some path ->
                         mp4_child N_udta km = Some udta) \/
   (exists moov, path = [moov] /\ mp4_child N_moov atoms = Some moov).
 Proof.
-  unfold insert_path. cbn [mp4_path].
+  unfold mp4_insert_path. cbn [mp4_path].
   destruct (mp4_child N_moov atoms) as [moov|] eqn:E1; [|discriminate].
   destruct (ma_kids moov) as [km|] eqn:K1.
   - destruct (mp4_child N_udta km) as [udta|] eqn:E2.
@@ -66,7 +55,6 @@ Let off := ma_off last + ma_hdr last.
 Hypothesis Hfirst : forall T, In T (all_tabs atoms) -> ma_off T <> off.
 
 Lemma path_facts :
-  Forall (fun A => In A (mp4_flat atoms) /\ mp4_atom_ok f true A = true \/ In A (mp4_flat atoms)) path /\
   In last path /\ (ma_name last = N_moov \/ ma_name last = N_udta) /\
   Forall (anc_ok atoms off) path /\ NoDup path.
 Proof.
@@ -83,16 +71,16 @@ Proof.
     pose proof (skip_nonneg (ma_name moov)).
     assert (Su : mp4_skip (ma_name udta) = 0) by (rewrite N2; reflexivity).
     destruct (proj1 (atom_ok_kids_iff _ _ _ Hu)) as (ku & Ku); [rewrite N2; reflexivity|].
-    split; [repeat constructor; auto|]. split; [right; left; reflexivity|]. split; [right; exact N2|]. split.
+    split; [right; left; reflexivity|]. split; [right; exact N2|]. split.
     + unfold anc_ok, off. repeat constructor; eauto; lia.
-    + constructor; [cbn; intros [C|[]]; rewrite C in N1; rewrite N1 in N2; discriminate|]. constructor; [cbn; tauto|constructor].
+    + constructor; [cbn; intros [C|[]]; rewrite C in N2; rewrite N1 in N2; discriminate|]. constructor; [cbn; tauto|constructor].
   - cbn in Hlast. inversion Hlast; subst last rest.
     destruct (child_split _ _ _ C1) as (T1 & T2 & E1 & N1 & _). subst atoms.
     pose proof (forest_ok_split _ _ _ _ _ _ _ Hwf) as (_ & Hm & _).
     assert (Im : In moov (mp4_flat (T1 ++ moov :: T2))) by (apply in_flat_self; apply in_or_app; right; left; reflexivity).
     assert (Sm : mp4_skip (ma_name moov) = 0) by (rewrite N1; reflexivity).
     destruct (proj1 (atom_ok_kids_iff _ _ _ Hm)) as (km & Km); [rewrite N1; reflexivity|].
-    split; [repeat constructor; auto|]. split; [left; reflexivity|]. split; [left; exact N1|]. split.
+    split; [left; reflexivity|]. split; [left; exact N1|]. split.
     + unfold anc_ok, off. repeat constructor; eauto; lia.
     + constructor; [cbn; tauto|constructor].
 Qed.
@@ -100,7 +88,7 @@ Qed.
 Lemma last_facts : In last (mp4_flat atoms) /\ (exists K, ma_kids last = Some K) /\ mp4_skip (ma_name last) = 0 /\
                    0 <= ma_off last /\ 0 <= off <= zlen f.
 Proof.
-  destruct path_facts as (_ & Hin & Hn & HA & _). rewrite Forall_forall in HA. destruct (HA last Hin) as (H1 & H2 & H3).
+  destruct path_facts as (Hin & Hn & HA & _). rewrite Forall_forall in HA. destruct (HA last Hin) as (H1 & H2 & H3).
   destruct (flat_member_ok f atoms Hwf last H1) as (top & Hok). pose proof (atom_ok_len _ _ _ Hok).
   repeat split; auto; try (unfold off; lia). destruct Hn as [-> | ->]; reflexivity.
 Qed.
@@ -133,7 +121,7 @@ Hypothesis Hrun2 : mp4_update_offsets atoms (zlen data - 0) off f2 = Ok f'.
 Definition new_result :=
   surgery_result f atoms Hwf Htab off 0 data (proj1 (proj2 (proj2 (proj2 (proj2 last_facts)))))
     (Z.le_refl 0) ltac:(pose proof last_facts; lia) new_placed path
-    (proj1 (proj2 (proj2 (proj2 path_facts)))) (proj2 (proj2 (proj2 (proj2 path_facts)))) f2 f' Hrun1 Hrun2.
+    (proj1 (proj2 (proj2 path_facts))) (proj2 (proj2 (proj2 path_facts))) f2 f' Hrun1 Hrun2.
 
 Lemma new_leaf_kept L : In L (mp4_flat atoms) -> ma_kids L = None -> is_table_name L = false ->
   (ma_off L + ma_len L <= off \/ off <= ma_off L) ->
@@ -142,7 +130,7 @@ Proof.
   intros HL KL NL Hpos.
   apply (leaf_kept f atoms Hwf Htab off 0 data (proj1 (proj2 (proj2 (proj2 (proj2 last_facts))))) (Z.le_refl 0)
            ltac:(pose proof last_facts; lia) new_placed path
-           (proj1 (proj2 (proj2 (proj2 path_facts)))) (proj2 (proj2 (proj2 (proj2 path_facts)))) f2 f' Hrun1 Hrun2 L HL KL).
+           (proj1 (proj2 (proj2 path_facts))) (proj2 (proj2 (proj2 path_facts))) f2 f' Hrun1 Hrun2 L HL KL).
   - intros HT. unfold all_tabs in HT. unfold is_table_name, mp4_named in NL. apply in_app_or in HT.
     destruct HT as [HT|HT]; [destruct (stco_in atoms L HT) as (_ & E); rewrite E in NL; discriminate|].
     apply in_app_or in HT. destruct HT as [HT|HT]; [destruct (co64_in atoms L HT) as (_ & E); rewrite E in NL; discriminate|].
